@@ -25,6 +25,10 @@ pub enum Reader {
     Status,
     CursorStatus,
     SelectionStatus,
+    /// branch / handoff off the thread with no selector (cut = head, last message): the recorded
+    /// cut must be that of ONE state of the parent (C10)
+    Branch,
+    Handoff,
 }
 
 #[derive(Clone, Copy, Debug, PartialEq, Eq, Hash)]
@@ -51,7 +55,7 @@ pub enum Pre {
     LongWithCheckpoint,
 }
 
-pub const FILTER: [&str; 5] = ["start", "fs.*", "cont.next_seq", "cont.index", "log.writer"];
+pub const FILTER: [&str; 6] = ["start", "fs.*", "cont.next_seq", "cont.index", "log.writer", "@stalls"];
 
 struct Built {
     fx: Fx,
@@ -119,7 +123,54 @@ fn read(fx: &Fx, thread: &str, msgs: &[String], r: Reader) -> Value {
         Reader::Status => res(store.compaction_status_v1(thread, CompactionStatusV1Request { stride_messages: Some(2) })),
         Reader::CursorStatus => res(store.provider_cursor_status_v1(thread, ProviderCursorStatusV1Request {})),
         Reader::SelectionStatus => res(store.context_selection_status_v1(thread, ContextSelectionStatusV1Request { limit: Some(10) })),
+        Reader::Branch => match store.branch(thread, Some("racing".into()), None, None, "u".into(), "o".into()) {
+            Ok((child, seq, mid)) => json!({"ok": {"child": child, "cut_seq": seq, "cut_message_id": mid}}),
+            Err(e) => json!({"err": e}),
+        },
+        Reader::Handoff => match store.handoff(thread, None, (Some("racing".into()), None), None, None, ("u".into(), "o".into())) {
+            Ok((child, seq, mid)) => json!({"ok": {"child": child, "cut_seq": seq, "cut_message_id": mid}}),
+            Err(e) => json!({"err": e}),
+        },
     }
+}
+
+/// Ids that must be compared by WHAT they name (not by order of appearance): the cut message of
+/// a branch / handoff becomes that message's content; the child's lineage frame is added.
+fn finalize(fx: &Fx, thread: &str, raw: &Value) -> Value {
+    let mut v = raw.clone();
+    let Some(ok) = v.get_mut("ok").and_then(|o| o.as_object_mut()) else { return v };
+    if let Some(mid) = ok.get("cut_message_id").cloned() {
+        let parent = fx.truth(rip_kernel::StreamKind::Continuity, thread);
+        let named = mid.as_str().and_then(|id| parent.iter().find(|e| e.id == id)).map(|e| match &e.kind {
+            rip_kernel::EventKind::ContinuityMessageAppended { content, .. } => format!("message '{content}' at seq {}", e.seq),
+            _ => format!("frame at seq {} (not a message)", e.seq),
+        });
+        ok.insert("cut_message".into(), json!(named));
+        ok.remove("cut_message_id");
+        if let Some(child) = ok.get("child").and_then(|c| c.as_str()).map(|s| s.to_string()) {
+            let frames = fx.truth(rip_kernel::StreamKind::Continuity, &child);
+            let lineage: Vec<Value> = frames
+                .iter()
+                .skip(1)
+                .take(1)
+                .map(|e| {
+                    let mut j = crate::fixture::event_json(e);
+                    if let Some(o) = j.as_object_mut() {
+                        // the lineage frame names the cut message by id: same treatment
+                        for k in ["from_message_id", "parent_message_id"] {
+                            if let Some(id) = o.get(k).and_then(|x| x.as_str()).map(|s| s.to_string()) {
+                                let what = parent.iter().find(|e| e.id == id).map(|e| format!("frame at seq {}", e.seq));
+                                o.insert(k.into(), json!(what));
+                            }
+                        }
+                    }
+                    j
+                })
+                .collect();
+            ok.insert("child_lineage".into(), json!(lineage));
+        }
+    }
+    v
 }
 
 fn write(fx: &Fx, thread: &str, msgs: &[String], last_sess: &str, w: Writer) -> Result<(), String> {
@@ -241,10 +292,10 @@ pub fn run_config(report: &Report, prop: &'static str, pre: Pre, r: Reader, w: W
     let (before, after) = {
         let b = build(&rt, pre);
         let c0 = b.fx.copy(true);
-        let before = canon(&read(&c0, &b.thread, &b.msgs, r));
+        let before = canon(&finalize(&c0, &b.thread, &read(&c0, &b.thread, &b.msgs, r)));
         let c1 = b.fx.copy(true);
         let _ = write(&c1, &b.thread, &b.msgs, &b.last_sess, w);
-        let after = canon(&read(&c1, &b.thread, &b.msgs, r));
+        let after = canon(&finalize(&c1, &b.thread, &read(&c1, &b.thread, &b.msgs, r)));
         (before, after)
     };
     let label = format!("{pre:?}:{r:?}|{w:?}");
@@ -260,6 +311,9 @@ pub fn run_config(report: &Report, prop: &'static str, pre: Pre, r: Reader, w: W
             &|| make_world(&rt, pre, r, w),
             &mut |world: &World, exec: &Exec| {
                 report.eval(Some(&(prop, pre, r, w, exec.trace_hash())));
+                if exec.stalls > 0 {
+                    report.count("race_executions_with_an_actor_blocked_on_a_lock_without_hook", 1);
+                }
                 let case = || {
                     json!({"engine": "S", "granularity": "system calls", "harness": "race.reader_vs_appender", "pre": format!("{pre:?}"), "reader": format!("{r:?}"), "writer": format!("{w:?}"),
                         "choice_points_only": exec.decisions.iter().filter(|d| d.enabled.len() > 1).map(|d| d.chosen).collect::<Vec<_>>(), "preemptions": exec.preemptions,
@@ -272,7 +326,7 @@ pub fn run_config(report: &Report, prop: &'static str, pre: Pre, r: Reader, w: W
                 if let Some(Err(e)) = world.wrote.lock().unwrap().as_ref() {
                     report.violation(&format!("{prop}:race:append_failed:{label}"), case(), &format!("the append failed while a reader was active: {e}"));
                 }
-                let got = world.answer.lock().unwrap().clone().unwrap_or(Value::Null);
+                let got = finalize(&world.b.fx, &world.b.thread, &world.answer.lock().unwrap().clone().unwrap_or(Value::Null));
                 let g = canon(&got);
                 oc.insert(if g == before { 0 } else if g == after { 1 } else { 2 });
                 if g != before && g != after {
@@ -343,6 +397,8 @@ pub fn worker(opts: Opts, prop: &'static str, level: &'static str, spec: &str) -
     let pre = parse(&PRES, v["pre"].as_str().unwrap_or("")).unwrap_or(Pre::OpenTurn);
     let readers: Vec<Reader> = {
         let mut all = READERS_C04.to_vec();
+        all.push(Reader::Branch);
+        all.push(Reader::Handoff);
         for k in 0..18 {
             all.push(Reader::Compile(k));
         }
